@@ -76,6 +76,7 @@ def build_leaf(spec):
         iterations=spec.get("iterations"),
         warmup_time_period=spec.get("warmup_time_period"),
         time_period=spec.get("time_period"),
+        ramp_up_time_period=spec.get("ramp_up"),
         clients=spec["clients"],
         completes_parent=spec.get("completes_parent", False),
         any_completes_parent=spec.get("any_completes_parent", False),
@@ -233,7 +234,7 @@ def run_race(case, inject=None, after_complete_grace=True, collect_metrics=False
     world.register()
     random.seed(case.get("seed", 0))
     for _, leaf in leaves(case["schedule"]):
-        w.tasks[leaf["name"]] = {"requests": leaf["requests"], "stride": leaf.get("stride", 7)}
+        w.tasks[leaf["name"]] = {"requests": leaf["requests"], "stride": leaf.get("stride", 7), "source-size": leaf.get("source_size")}
     schedule = build_schedule(case["schedule"])
     challenge = track.Challenge("sim-challenge", default=True, schedule=schedule, meta_data={"challenge-tag": 1})
     t = track.Track("sim-track", challenges=[challenge], meta_data={"track-tag": 1})
@@ -481,7 +482,7 @@ def run_full_race(case, fault=None):
     world.register()
     random.seed(case.get("seed", 0))
     for _, leaf in leaves(case["schedule"]):
-        w.tasks[leaf["name"]] = {"requests": leaf["requests"], "stride": leaf.get("stride", 7)}
+        w.tasks[leaf["name"]] = {"requests": leaf["requests"], "stride": leaf.get("stride", 7), "source-size": leaf.get("source_size")}
     schedule = build_schedule(case["schedule"])
     challenge = track.Challenge("sim-challenge", default=True, schedule=schedule, meta_data={"challenge-tag": 1})
     t = track.Track("sim-track", challenges=[challenge], meta_data={"track-tag": 1})
